@@ -532,7 +532,7 @@ Proof.
   - (* LCP control frame *) apply lcp_apply_Inv; auto. apply fsm_input_ok.
   - (* LCP codes handled by the dispatcher / option handler *)
     destruct x; auto.
-    + destruct (in_net (ph (ms m))); auto. apply W_emit_plain; auto.
+    + destruct (fs (lcp (ms m))); auto; apply W_emit_plain; auto.
     + apply ncp_apply_Inv_qs; auto. apply fsm_close_qs.
     + apply ncp_apply_Inv_qs; auto. apply fsm_close_qs.
     + apply lcp_apply_Inv; auto. apply fsm_input_ok.
